@@ -2,7 +2,9 @@
 //!
 //! case `(npre npost v0 (v1 … vn))`: `v0` is built and mounted between `npre` / `npost`
 //! text siblings of a `<div>`, then rebuilt with `v1 … vn`, then unmounted.
-//! view  v ::= (0 bytes) text | (1) unit | (2 tag (id? hidden class on color) v) element
+//! view  v ::= (0 bytes) text | (1) unit | (2 tag (id? hidden class on color) v) element, tag = 0 p,
+//!             1 span, 2 div, and the raw-text elements (`ElementType::ESCAPE_CHILDREN == false`)
+//!             3 textarea, 4 style, 5 script, 6 noscript
 //!           | (3 (v v) | (v v v)) tuple | (4 side v) Either | (5 () | (v)) Option
 //!           | (6 (v…)) Vec | (7 (v…)) StaticVec | (8 ((key v)…)) keyed list
 //!           | (9 d) the i32 d (0..9) | (10 bytes) &'static str | (11 branch v) EitherOf3
@@ -21,7 +23,7 @@ use std::collections::HashSet;
 use tachys::{
     html::{
         attribute::global::{ClassAttribute, GlobalAttributes, StyleAttribute},
-        element::{div, p, span, ElementChild},
+        element::{div, noscript, p, script, span, style, textarea, ElementChild},
     },
     renderer::dom::{Kind, Node},
     view::{
@@ -61,7 +63,11 @@ pub fn to_view(v: &Sexp) -> AnyView {
             match v.at(1).num() {
                 0 => element!(p, v.at(2), child),
                 1 => element!(span, v.at(2), child),
-                _ => element!(div, v.at(2), child),
+                2 => element!(div, v.at(2), child),
+                3 => element!(textarea, v.at(2), child),
+                4 => element!(style, v.at(2), child),
+                5 => element!(script, v.at(2), child),
+                _ => element!(noscript, v.at(2), child),
             }
         }
         3 => {
@@ -135,7 +141,11 @@ fn ser(n: &Node, old: &HashSet<u64>) -> Sexp {
                 "p" => 0,
                 "span" => 1,
                 "div" => 2,
-                _ => 3,
+                "textarea" => 3,
+                "style" => 4,
+                "script" => 5,
+                "noscript" => 6,
+                _ => 7,
             };
             let opt = |name: &str| match n.get_attribute(name) {
                 Some(v) => Lst(vec![Sexp::from_str(&v)]),
